@@ -28,6 +28,9 @@ type Stats struct {
 	Notes      []string          `json:"notes"`
 	Exhaustive bool              `json:"exhaustive"`
 	Rule       string            `json:"rule"`
+	// Digest summarises everything the process computed that must be the same in every process
+	// given the same seed (C13).
+	Digest string `json:"digest"`
 	hashes     map[uint64]struct{}
 	maxSamples int
 }
